@@ -296,6 +296,16 @@ BASE_CFG = dict(
 
 
 def cfg_for(pid: str, profile: str) -> dict:
+    deep = profile.endswith("-deep")  # thorough-only variants with larger bounds than the quick tier ever reaches
+    profile = profile.removesuffix("-deep")
+    c = _cfg_for(pid, profile)
+    if deep:
+        c.update(max_depth=c["max_depth"] + 2, max_blocks=c["max_blocks"] * 2 + 4, max_ops=10, max_actors=7,
+                 disposables=c["disposables"] + 1 if c["disposables"] else 0)
+    return c
+
+
+def _cfg_for(pid: str, profile: str) -> dict:
     c = {k: (dict(v) if isinstance(v, dict) else v) for k, v in BASE_CFG.items()}
     w = c["w"]
     if pid == "C01":
@@ -1909,8 +1919,8 @@ class ScopeProp(Prop):
 
     def expand(self, seed, profile, run, sample):
         from sim.source import Source
-        if profile in self.sweep_profiles:
-            return sweep_expand(self, seed, profile, run, sample, max_k=200)
+        if profile.removesuffix("-deep") in self.sweep_profiles:
+            return sweep_expand(self, seed, profile, run, sample, max_k=250)
         return run(Source(seed), sample)
 
     def execute(self, sim, profile):
@@ -1934,51 +1944,51 @@ def _mk(pid, level, tiers, rule, sweeps=()):
 
 
 PROPS = {
-    "C01": _mk("C01", "exploration", {"quick": [("plain", 180000)], "thorough": [("plain", 3600000)]},
+    "C01": _mk("C01", "exploration", {"quick": [("plain", 180000)], "thorough": [("plain", 3600000), ("plain-deep", 720000)]},
                "one case = generated tree of nested ctx.scope (sync/async, with state-yielding disposables) / ctx.updated blocks over a "
                "family of 5 state types (defaultable, required attribute, subclass, two specialisations of a generic) with probes "
                "(ctx.state with and without explicit default, in both orders) before/inside/between/after + completion order of "
                "concurrently entered disposables; distinct = event-log digest incl. program; non-trivial = at least two blocks"),
     "C02": _mk("C02", "fault_enumeration",
                {"quick": [("plain", 90000), ("disp", 60000), ("sweep", 3000), ("disp-sweep", 2400), ("cancel", 36000)],
-                "thorough": [("plain", 1800000), ("disp", 1200000), ("sweep", 60000), ("disp-sweep", 48000), ("cancel", 720000)]},
+                "thorough": [("plain", 1800000), ("disp", 1200000), ("sweep", 60000), ("disp-sweep", 48000), ("cancel", 720000), ("plain-deep", 360000), ("disp-deep", 240000), ("sweep-deep", 12000), ("disp-sweep-deep", 9600), ("cancel-deep", 144000)]},
                "C01 programs + faults: body raise (Exception/BaseException), failing spawned tasks, disposable enter/exit failures, "
                "external cancel at a random loop iteration or swept over EVERY iteration of the fault-free twin; around every block "
                "the state answers, probe-log scope prefix and owning task group are compared before/after; non-trivial = at least "
                "one fault fired or two blocks nested", sweeps=("sweep", "disp-sweep")),
-    "C03": _mk("C03", "exploration", {"quick": [("plain", 90000)], "thorough": [("plain", 1800000)]},
+    "C03": _mk("C03", "exploration", {"quick": [("plain", 90000)], "thorough": [("plain", 1800000), ("plain-deep", 360000)]},
                "2..4 actors (ctx.spawn / loop.create_task) each running its own nesting of scopes/updates with a pause between any "
                "two ops; every actor probes after every op against its own shadow stack; non-trivial = at least two actors"),
     "C06": _mk("C06", "fault_enumeration",
                {"quick": [("plain", 120000), ("cancel", 48000), ("sweep", 3000)],
-                "thorough": [("plain", 2400000), ("cancel", 960000), ("sweep", 60000)]},
+                "thorough": [("plain", 2400000), ("cancel", 960000), ("sweep", 60000), ("plain-deep", 480000), ("cancel-deep", 192000), ("sweep-deep", 12000)]},
                "programs with up to 4 spawned tasks (nested spawns, failing, plain/held gates), body return/raise/cancel; at the instant "
                "`async with` returns every attributed task must be done; deadlock detector; non-trivial = at least two actors",
                sweeps=("sweep",)),
     "C07": _mk("C07", "fault_enumeration",
                {"quick": [("plain", 90000), ("cancel", 60000), ("sweep", 3600), ("disp-sweep", 1200)],
-                "thorough": [("plain", 1800000), ("cancel", 1200000), ("sweep", 72000), ("disp-sweep", 24000)]},
+                "thorough": [("plain", 1800000), ("cancel", 1200000), ("sweep", 72000), ("disp-sweep", 24000), ("plain-deep", 360000), ("cancel-deep", 240000), ("sweep-deep", 14400), ("disp-sweep-deep", 4800)]},
                "C06-style programs (no harness code swallows CancelledError); one external cancel of a drawn actor at a random loop "
                "iteration or swept over EVERY iteration of the fault-free twin, ctx.cancel()/check_cancellation ops; landing points "
                "are classified; profile 'disp-sweep' adds failing/suspending disposables; user code may catch a cancellation "
                "(without uncancel) and ask again; non-trivial = a cancel was delivered", sweeps=("sweep", "disp-sweep")),
     "C08": _mk("C08", "fault_enumeration",
                {"quick": [("plain", 72000), ("faults", 90000), ("sweep", 3000)],
-                "thorough": [("plain", 1440000), ("faults", 1800000), ("sweep", 60000)]},
+                "thorough": [("plain", 1440000), ("faults", 1800000), ("sweep", 60000), ("plain-deep", 288000), ("faults-deep", 360000), ("sweep-deep", 12000)]},
                "scopes with 0..4 disposable doubles (none/one/several states; ok/raise/suspend in enter and exit), Disposables or plain "
                "iterable, body return/raise/cancel, all completion orders; non-trivial = a disposable fault fired or two blocks",
                sweeps=("sweep",)),
     "C09": _mk("C09", "exploration", {"quick": [("plain", 120000), ("faults", 60000)],
-                                      "thorough": [("plain", 2400000), ("faults", 1200000)]},
+                                      "thorough": [("plain", 2400000), ("faults", 1200000), ("plain-deep", 480000), ("faults-deep", 240000)]},
                "scope trees (<=6 nodes, sync/async callbacks on every node) whose children run in the parent's task, in ctx.spawn tasks "
                "or in plain create_task tasks that may outlive the parent or create scopes after the parent completed; every "
                "linearisation of enter/exit via pauses and gates; profile 'faults' adds body raise, failing children, failing "
                "disposables and one external cancel so that every exit path is covered; non-trivial = at least two scopes"),
-    "C10": _mk("C10", "exploration", {"quick": [("plain", 150000)], "thorough": [("plain", 3000000)]},
+    "C10": _mk("C10", "exploration", {"quick": [("plain", 150000)], "thorough": [("plain", 3000000), ("plain-deep", 600000)]},
                "scope trees with record ops of two metric types (merge replace/sum/concat(non-commutative)/raising) at any position, in "
                "concurrently running actors, outside scopes and after completion; reference left fold per scope and depth-first "
                "merged views; non-trivial = a record inside a nested scope or two actors"),
-    "C19": _mk("C19", "exploration", {"quick": [("plain", 150000)], "thorough": [("plain", 3000000)]},
+    "C19": _mk("C19", "exploration", {"quick": [("plain", 150000)], "thorough": [("plain", 3000000), ("plain-deep", 600000)]},
                "scope trees where each node optionally passes its own Logger and/or trace id, scope names from an alphabet incl. '', "
                "'100%', '%s', 'a b'; log ops of all four levels with %-arguments and optional exception, in the creating actor and "
                "in spawned actors, and outside any scope; non-trivial = a log line inside a nested scope"),
